@@ -977,6 +977,13 @@ func (fv *FuncVC) appendFacts(old, nh Term, dst Term, np, nc Term, esz int64, in
 	// old elements preserved at the new location
 	fv.assumeHere(Term{S: fmt.Sprintf("(forall ((a!a Int)) (! (=> (and (<= %s a!a) (< a!a %s)) (= (select %s a!a) (select %s (+ (- a!a %s) %s)))) :pattern ((select %s a!a))))",
 		np.S, endOld.S, nh.S, old.S, np.S, slPtr(dst).S, nh.S), Sort: SBool})
+	if esz > 1 {
+		// the same, element-wise, in the form index terms take elsewhere (E-matching cannot see
+		// that np + (a - np) ... is the address of element j of the old array)
+		fv.ix(np, intLit(0), esz)
+		fv.assumeHere(Term{S: fmt.Sprintf("(forall ((j!a Int)) (! (=> (and (<= 0 j!a) (< j!a %s)) (= (select %s (ix.%d %s j!a)) (select %s (ix.%d %s j!a)))) :pattern ((select %s (ix.%d %s j!a)))))",
+			l.S, nh.S, esz, np.S, old.S, esz, slPtr(dst).S, nh.S, esz, np.S), Sort: SBool})
+	}
 	if elem != nil {
 		for i := int64(0); i < nelem; i++ {
 			fv.assumeHere(eq(sel(nh, fv.ix(np, add(l, intLit(i)), esz)), elem(i)))
